@@ -64,7 +64,10 @@ CHECKS = {
         "programs against the reference evaluator, with an in-program trace; "
         "comprehension == explicit loop as a metamorphic relation; mutant "
         "models as non-triviality measure",
-        "Generated loop nests with exits at every kind of position, logging "
+        "Generated loop nests with exits at every kind of position (as "
+        "statements and inside eleven kinds of expression: argument, operand, "
+        "literal element, index, condition, element / member assignment), "
+        "logging "
         "if/elif ladders, iteration over every iterable kind and every "
         "comprehension form are run by the interpreter and by the reference "
         "evaluator; trace and results must agree. For each program six "
@@ -228,7 +231,10 @@ CHECKS = {
         "and all observable outcomes must be identical; permuting every "
         "collection literal must not change the outcome either. The workers "
         "report the raw host order of each program's strings so that the "
-        "fraction of programs whose host order really varied is measured.",
+        "fraction of programs whose host order really varied is measured. "
+        "Sets and maps of functions (which hash by identity) are sent "
+        "through 14 paths in workers whose memory layout is shifted with "
+        "the seed.",
         "Trusted: the outcome serialisation (value rendering, stdout, error "
         "value and message); a finite number of seeds; one open finding "
         "(dates mixed with numbers) excluded by construction.",
@@ -278,8 +284,10 @@ CHECKS = {
         "huge indices",
         "Every string over {a,b,c} and list over {1,2,3} up to length 4 "
         "(quick) / 6 (thorough) x every index in [-9, 9] for all indexing, "
-        "slicing, substr/sublist, find/find_last, insert_at, delete_at and "
-        "element-assignment forms is evaluated by the interpreter and "
+        "slicing, substr/sublist, find/find_last, insert_at, delete_at, "
+        "substitute, element-assignment and compound element-assignment "
+        "(with an index expression that counts its evaluations) forms is "
+        "evaluated by the interpreter and "
         "compared with a model written from the statement; random longer "
         "sequences and indices up to 2^64 on top. Exhaustive inside the "
         "bound, sampled outside.",
@@ -303,7 +311,8 @@ CHECKS = {
         "parameters and closures) and non-mutating producers; the interpreter "
         "result for every variable must equal a heap model with reference "
         "semantics. Exhaustive over the pool, sampled over scenarios.",
-        "Trusted: the snapshot function and the heap model (about 250 lines); "
+        "Trusted: the snapshot function (containers deeply, functions by "
+        "name and doc string) and the heap model (about 250 lines); "
         "streams are not snapshotted; no cycles.",
         "DESIGN.md section 5 C16",
     ),
@@ -314,9 +323,11 @@ CHECKS = {
         "Differential check of to_oa_date / to_date and of interpreted date "
         "arithmetic against datetime ordinals: thorough enumerates all 2.96 "
         "million days 1900-9999; quick covers 1 Jan / 28-29 Feb / 1 Mar / "
-        "31 Dec of every year plus random days, times of day and offsets.",
-        "Trusted: Python's datetime as the reference calendar; times compared "
-        "after rounding to the nearest second.",
+        "31 Dec of every year plus random days, times of day and offsets, "
+        "and pairs of dates whose difference must lead from one to the other "
+        "(d + (e - d) == e, also exactly at midnight).",
+        "Trusted: Python's datetime as the reference calendar; program text "
+        "carries times to the second.",
         "DESIGN.md section 5 C17",
     ),
     "C18": (
